@@ -65,6 +65,11 @@ type Record struct {
 	TimedOut bool
 	// Delivered is the number of raw response bytes handed to the client.
 	Delivered int
+	// Local marks a record the harness made up for a list whose source is a
+	// local file (no request reaches the server): Body is what the file held,
+	// Unreadable that it could not be read (missing, a directory), Uncertain
+	// that the system may or may not have read it during the operation.
+	Local, Unreadable, Uncertain bool
 }
 
 // Server is the simulated list server: an http.RoundTripper.
